@@ -145,7 +145,15 @@ def run(ctx):
                         '`%s` comes from %s, which hands out a value that can be iterated only once, and %s reads it %d times (lines %s): whatever reads '
                         'it first - a log line that joins it - leaves nothing for the listing, so the lookup returns no recordings' % (
                             nm_, prod_.qualname, m_.qualname, len(reads_), ', '.join(str(r.lineno) for r in reads_))))
-    common.import_clauses(ctx, res, 'C10', ['C10.a'], 'C16', 'C16.h', 'R-SIBLING', 'S3 listing prefixes are the category followed by the id delimiter (and a day folder)', floor=2)
+    shared_dflt = [(m_, p_, n_) for k_ in (repo.cls('S3TapeCassette'), repo.cls('S3BasicFacade')) for m_ in k_.methods.values()
+                   for p_, n_ in common.mutable_defaults_mutated(m_.node)]
+    ci16.instance('no listing / lookup routine of the S3 cassette / facade fills a mutable default argument', 'S3BasicFacade', not shared_dflt)
+    for m_, p_, n_ in shared_dflt[:1]:
+        res.add(Finding('C16', 'C16.i', 'R-PROV', m_.file, m_.qualname, n_.lineno, '%s=%s filled by `%s`' % (p_.arg, '[]', norm(n_)[:50]),
+                        '`%s` of %s has a mutable default that the routine changes in place: the one default object is shared by every call (and every '
+                        'instance), so the conditions of earlier lookups stay in force - a later window returns only what also lay in the earlier ones' % (
+                            p_.arg, m_.qualname)))
+    common.import_clauses(ctx, res, 'C10', ['C10.a', 'C10.d'], 'C16', 'C16.h', 'R-SIBLING', 'S3 listing prefixes are the category followed by the id delimiter (and a day folder); listed keys are turned back into the ids that were saved', floor=2)
     common.import_clauses(ctx, res, 'C15', ['C15.e'], 'C16', 'C16.j', 'R-ORDER', 'what a window lookup lists can be fetched: the listed object is written after the full object', floor=1)
     try:
         _run_rest(ctx, res)
